@@ -1884,13 +1884,14 @@ class MkcolMethod(Method):
         href, path, resource = app._get_resource_from_environ(request, environ)
         if resource is not None:
             return _send_method_not_allowed(app._get_allowed_methods(request))
+        if base_content_type in ("text/xml", "application/xml"):
+            # Extended MKCOL (RFC5689); parse the body before creating anything
+            et = await _readXmlBody(request, "{DAV:}mkcol", strict=app.strict)
         try:
             resource = app.backend.create_collection(path)
         except FileNotFoundError:
             return Response(status=409, reason="Conflict")
         if base_content_type in ("text/xml", "application/xml"):
-            # Extended MKCOL (RFC5689)
-            et = await _readXmlBody(request, "{DAV:}mkcol", strict=app.strict)
             propstat = []
             for el in et:
                 if el.tag != "{DAV:}set":
